@@ -7,7 +7,7 @@ from typing import List
 from ..callgraph import callgraph, open_mode, primitive_effect
 from ..cfg import cfg_of, edge_dominates, must_reach, node_calls, nodes_dominate, path_from, reach
 from ..defuse import def_value, defs_of, derives_from, reaching_defs, resolve_alias
-from ..model import Repo, ancestors, attr_chain, body_nodes, norm, short
+from ..model import Repo, ancestors, attr_chain, body_nodes, norm, parent, short
 
 
 def check(repo: Repo, rep, tier):
@@ -474,6 +474,13 @@ def err_dropped(repo: Repo, rep):
     for f in repo.pkg_funcs():
         for h in [x for x in body_nodes(f.node) if isinstance(x, ast.ExceptHandler)]:
             storage_layer = f.module.rel == "_external.py" and f.cls is not None and f.cls.name == "DiscStorage"
+            if storage_layer and not (h.type is not None and "HashError" in norm(h.type)):
+                # a handler inside the storage class counts when its try block performs a storage operation (file system access, a
+                # lookup); a try block that only parses the name it was given (`external(name)._path`) drops no storage error
+                tr = parent(h)
+                ops_ = [c for s_ in getattr(tr, "body", []) for c in ast.walk(s_) if isinstance(c, ast.Call) and isinstance(c.func, ast.Attribute) and (c.func.attr in ("rename", "replace", "unlink", "read_bytes", "write_bytes", "read_text", "write_text", "glob", "iterdir", "mkdir", "exists", "open", "touch", "rmdir") or c.func.attr.startswith("_lookup") or c.func.attr in ("save", "read", "remove", "persist", "lookup_all"))]
+                if not ops_:
+                    continue
             if not ((h.type is not None and "HashError" in norm(h.type)) or storage_layer):
                 continue
             n += 1
